@@ -88,11 +88,19 @@ class MySQLQueryBuilder(QueryBuilder):
                             value=value.get_sql(on_conflict_ctx.copy(subquery=True)),
                         )
                     )
-                else:
+                elif self.alias:
                     updates.append(
                         "{field}={alias}.{value}".format(
                             field=field.get_sql(on_conflict_ctx),
                             alias=format_quotes(self.alias, ctx.quote_char),
+                            value=field.get_sql(on_conflict_ctx),
+                        )
+                    )
+                else:
+                    # no row alias (INSERT .. AS new) was given: the proposed value is spelt VALUES(col)
+                    updates.append(
+                        "{field}=VALUES({value})".format(
+                            field=field.get_sql(on_conflict_ctx),
                             value=field.get_sql(on_conflict_ctx),
                         )
                     )
